@@ -4,9 +4,9 @@ CONSTANTS
   Default = 0
   MaxLen = 3
   ResizeNs = {0, 2, 3}
-  ReserveNs = {5}
+  ReserveNs = {0, 5}
   AllocBelow = 1
   AllocAbove = 1
   ByteSized = FALSE
-  Lifetime = FALSE
+  Lifetime = TRUE
 INVARIANTS TypeOK Bounded LastAgrees
